@@ -211,7 +211,7 @@ def run(ctx):
         run_fit(ctx, 'f_3', 3, 3, cat='Cat3', trainmax=3, rset='R123', thin_1=2, thin_t=401, pats='Pat3', opt_every=25)
         run_fit(ctx, 'f_4_r1', 3, 4, cat='Cat4', trainmax=2, rset='R1', thin_r=1, thin_1=29, pats='Pat4', opt_every=25)
         run_fit(ctx, 'f_4_r23', 3, 4, cat='Cat4', trainmax=2, rset='R23', thin_r=13, thin_t=499, pats='Pat4', opt_every=25)
-        run_fit(ctx, 'f_interp', 3, 4, cat='CatI4', init='IInit', trainmax=2, rset='R123', thin_r=13, thin_1=1, thin_t=97,
+        run_fit(ctx, 'f_interp', 3, 4, cat='CatI4', init='IInit', trainmax=2, rset='R12', thin_r=13, thin_1=1, thin_t=31,
                 pats='Pat4')
         run_lin(ctx, 'lin_3', 3, 3, cat='Cat3', lingrid=2)
         run_lin(ctx, 'lin_4', 3, 4, cat='Cat4', lingrid=1)
